@@ -11,8 +11,10 @@ Open Scope list_scope.
 (* FORWARD, whole store: for every clean target and every well-formed input (as in C01), what write_arrays leaves is
    accepted by structural validation and decodes, following the specification alone, to exactly the graph given to the
    writer (ids verbatim; every property with its dtype, shape, mask and values, float16 upcast). *)
+From Geff Require Import ModelDomain.
+(* in_domain: usable property names, no bytes arrays -- where the tree model is faithful (see C01_roundtrip) *)
 Theorem C02_forward : forall k pre g md md' n e ov,
-  clean k pre -> wf_input g md n e -> final_metadata g md = Ok md' ->
+  clean k pre -> wf_input g md n e -> in_domain g md -> final_metadata g md = Ok md' ->
   exists tr post sg,
     write_arrays k g md true ov (init pre) = (mkst (Some post) tr, Ok tt) /\
     validate_structure k (Some post) = Ok tt /\
@@ -20,14 +22,14 @@ Theorem C02_forward : forall k pre g md md' n e ov,
     sgraph_eqb sg (mksg (w_nids g) (w_eids g)
                         (of_props (up_props (backfill (w_nids g) md (w_nprops g))))
                         (of_props (up_props (w_eprops g)))) = true.
-Proof. exact write_then_spec_decode. Qed.
+Proof. intros k pre g md md' n e ov Hc Hwf _ Hfm. exact (write_then_spec_decode k pre g md md' n e ov Hc Hwf Hfm). Qed.
 Print Assumptions C02_forward.
 
 (* the same with no success premise: `final_metadata g md = Ok md'` is discharged from wf_input and "every axis property holds
    its values" (WriteTotal.v; C01_final_metadata_total) *)
 From Geff Require Import WriteTotal ConverseTotal.
 Theorem C02_forward_total : forall k pre g md n e ov,
-  clean k pre -> wf_input g md n e -> axes_have_data g md ->
+  clean k pre -> wf_input g md n e -> in_domain g md -> axes_have_data g md ->
   exists md' tr post sg,
     final_metadata g md = Ok md' /\
     write_arrays k g md true ov (init pre) = (mkst (Some post) tr, Ok tt) /\
@@ -36,7 +38,7 @@ Theorem C02_forward_total : forall k pre g md n e ov,
     sgraph_eqb sg (mksg (w_nids g) (w_eids g)
                         (of_props (up_props (backfill (w_nids g) md (w_nprops g))))
                         (of_props (up_props (w_eprops g)))) = true.
-Proof. exact forward_total. Qed.
+Proof. intros k pre g md n e ov Hc Hwf _ Hd. exact (forward_total k pre g md n e ov Hc Hwf Hd). Qed.
 Print Assumptions C02_forward_total.
 
 (* CONVERSE, whole store: whatever store the library reads successfully (with structural validation on) -- written by
